@@ -259,35 +259,45 @@ theorem c13_ok_gen {t : DevTree} (hw : wfTree t = true) (cfg : Cfg)
 /-! ### non-vacuity -/
 
 section Example
+def exLeaf : DevTree := .node "uuid:leaf".toList "urn:schemas-upnp-org:device:Leaf:3".toList
+  ["urn:schemas-upnp-org:service:C:2".toList] []
 def exEmb : DevTree := .node "uuid:emb".toList "urn:schemas-upnp-org:device:Emb:2".toList
-  ["urn:schemas-upnp-org:service:B:1".toList] []
+  ["urn:schemas-upnp-org:service:B:1".toList, "urn:schemas-upnp-org:service:C:2".toList] [exLeaf]
 def exTree : DevTree := .node "UUID:Root".toList "urn:schemas-upnp-org:device:Root:1".toList
   ["urn:schemas-upnp-org:service:A:3".toList] [exEmb]
 def exCfg : Cfg :=
-  { baseUri := "http://192.168.1.5:8000".toList, deviceUrl := "/device.xml".toList, server := "s".toList,
+  { baseUri := "http://[2001:db8::1]:8000".toList, deviceUrl := "/device.xml".toList, server := "s".toList,
     cacheControl := Gen.C13Server.cacheControl, date := "d".toList, bootId := "1".toList, configId := "1".toList,
     host := "239.255.255.250:1900".toList }
 def exReq (st : String) (mx : Option String) : Req :=
   { line := mSearchLine, man := some ssdpDiscover, st := some st.toList, mx := mx.map String.toList }
 def exSearches : List SearchIn :=
   [⟨0, "a".toList, exReq "SSDP:ALL" (some "3"), some 17⟩,
-   ⟨500, "b".toList, exReq "URN:schemas-upnp-org:device:emb:1" (some "10"), none⟩,
-   ⟨900, "c".toList, exReq "urn:schemas-upnp-org:device:Emb:3" none, none⟩,
-   ⟨950, "d".toList, exReq "uuid:EMB" (some "-1"), none⟩]
+   ⟨500, "b".toList, exReq "URN:schemas-upnp-org:device:leaf:1" (some "10"), none⟩,
+   ⟨900, "c".toList, exReq "urn:schemas-upnp-org:service:C:3" none, none⟩,
+   ⟨950, "d".toList, exReq "uuid:EMB" (some "-1"), none⟩,
+   ⟨960, "e".toList, exReq "urn:schemas-upnp-org:service:c:0" (some "0"), none⟩]
 
-/-- the hypotheses of `c13_ok_gen` hold for a tree with an embedded device and services, and the
-    run is not trivial: 7 answers to `ssdp:all` after 117 ms, one echoing answer to a lower version
-    at the upper jitter bound (4749 ms ≤ MX), none to a higher version, one to the embedded UUID at
-    once; 8 announcements (more than one round of 7) and 7 byebyes -/
+/-- the hypotheses of `c13_ok` hold for a root with an embedded device that itself embeds a device
+    (the service type `C:2` occurs in two devices), an IPv6 description URL, and the run is not
+    trivial: 11 answers to `ssdp:all` after 117 ms; ONE echoing answer for the nested device's type
+    requested at a lower version and in another letter case, at the upper jitter bound (4749 ms,
+    MX 10 capped at 5); none for a service type at a higher version; the UUID answer at once for a
+    negative MX; TWO answers (two devices) for service type `C` at version 0; 35 announcements =
+    three full rounds of 11 and two more, stopped, 11 byebyes.  With the always-root option a foreign
+    target is answered with the root message alone. -/
 example :
-    wfTree exTree = true ∧ validLocation exCfg.location = true ∧
-    (let c := runCase genConsts exCfg "t".toList exTree exSearches (some ⟨100, 100 + 7 * 30000 + 5, true⟩)
+    wfTree exTree = true ∧ validLocation exCfg.location = true ∧ constsOk { genConsts with alwaysRoot := true } = true ∧
+    (let c := runCase genConsts exCfg "t".toList exTree exSearches (some ⟨100, 100 + 34 * 30000 + 5, true⟩)
      c.searches.map (fun s => (s.sends.length, s.sends.map (·.time) |>.head?))
-       = [(7, some 117), (1, some 5249), (0, none), (1, some 950)]
-     ∧ c.alives.length = 8 ∧ c.byebyes.length = 7
-     ∧ (c.searches.map fun s => s.sends.map fun m => (String.ofList m.st, String.ofList m.usn))[3]?
-         = some [("uuid:emb", "uuid:emb")]) := by
-  refine ⟨by decide +kernel, by decide +kernel, by decide +kernel⟩
+       = [(11, some 117), (1, some 5249), (0, none), (1, some 950), (2, some 960)]
+     ∧ c.alives.length = 35 ∧ c.byebyes.length = 11 ∧ c.stopTime = some (100 + 34 * 30000 + 5)
+     ∧ (c.searches.map fun s => s.sends.map fun m => (String.ofList m.st, String.ofList m.usn))[1]?
+         = some [("urn:schemas-upnp-org:device:leaf:1", "uuid:leaf::urn:schemas-upnp-org:device:Leaf:3")]
+     ∧ (c.searches.map fun s => s.sends.map fun m => String.ofList m.usn)[4]?
+         = some ["uuid:emb::urn:schemas-upnp-org:service:C:2", "uuid:leaf::urn:schemas-upnp-org:service:C:2"])
+    ∧ (buildResponses exTree true "nothing".toList).map (fun m => String.ofList m.usn) = ["UUID:Root::upnp:rootdevice"] := by
+  refine ⟨by decide +kernel, by decide +kernel, by decide +kernel, by decide +kernel, by decide +kernel⟩
 end Example
 
 end Upnp.C13
